@@ -128,7 +128,7 @@ CHECKS = {
         runs=[dict(check="c11", scale=10, timeout_s=900), dict(check="c03", timeout_s=900, scale=4),
               # real threads: the C02 workload with the one-instant rule (torn_snapshot) evaluated on every response series
               dict(check="c02", scale=0.5, timeout_s=1500)],
-        required=["objects_checked", "complete_series_ok", "multi_fragment_series_ok", "partial_series_prefix_ok", "updates_between_fragments", "wrong_confirms", "series_ended_by_timeout", "series_ended_by_reconnect", "series_ended_by_new_request",
+        required=["reads_deferred_behind_null_unsolicited", "deferred_read_superseded", "objects_checked", "complete_series_ok", "multi_fragment_series_ok", "partial_series_prefix_ok", "updates_between_fragments", "wrong_confirms", "series_ended_by_timeout", "series_ended_by_reconnect", "series_ended_by_new_request",
                   "snapshot_fragments_consistent", "snapshot_later_fragments", "snapshot_instant_unique"],
         thorough_scale=25.0,
         abnormal_exit_is_violation=True,
